@@ -6,5 +6,11 @@ CLAIMED = {
   "note": "Trusted: Coq kernel; tools/gen extractor (ERRNO_RETRIES, cap); the hand-written model's control flow is tied to the code only by the correspondence run (differential testing on ~2.5k scripts quick); socket.sendall modelled as an error-raising send loop; a fatal errno raises ConnectionClosedError without partialData (stated, not hidden). No axioms (Print Assumptions: closed).",
   "technique": "Coq proof by induction over socket scripts + vm_compute correspondence against scripted fake sockets",
  },
+ "C06": {
+  "text": "Coq theorems over an executable model of SendingMessage / ReceivingMessage / add_payload / recv_stub: every message the sender can build (all field values, payloads, annotation sets, correlation id, compression on or off) decodes to exactly its fields and payload and consumes exactly its bytes whatever follows in the stream (decode_encode, proved for all inputs with big-endian arithmetic proved by lia, annotation walk by induction); oversize is refused by the sender and by the receiver with at most the 40 header bytes consumed; acceptance implies a valid header, size within the limit and exact consumption (decode_sound_partial). Constants, flag values, header layout and compression threshold are regenerated from protocol.py every run; the model is run against the real codec through receive_data over a randomly fragmenting socket.",
+  "design_ref": "DESIGN.md section 6 (C06)",
+  "note": "Partial: that accepted annotation chunks tile exactly and that an accepted message re-encodes to an equivalent one is not yet a Coq theorem; it is checked on the implementation by the harness oracle (independent chunk walk, re-encode + re-decode) and by correspondence on mutated/handcrafted streams. Trusted: Coq kernel, tools/gen extractor, zlib as an oracle (its outputs are recorded per case), struct's C code, asserts enabled. Fragmentation independence is the composition with C17's theorems (recv(n) returns exactly the next n bytes) and is exercised by reading every case through the real receive_data. No axioms.",
+  "technique": "Coq proof (round-trip theorem by induction + lia on big-endian arithmetic) + vm_compute correspondence against the real codec",
+ },
 }
 NOT_YET = {}
